@@ -127,6 +127,8 @@ def generate_in(predicate: InPredicate) -> Iterator:
                 yield from generate_ints(NotPredicate(predicate=predicate))
             case str():
                 yield from generate_strings(NotPredicate(predicate=predicate))
+    # no int or str member (e.g. the empty set): any value that is not a member will do
+    yield from generate_anys(NotPredicate(predicate=predicate))
 
 
 @generate_false.register
